@@ -1,13 +1,16 @@
 #!/bin/bash
-# usage: seedtest.sh <patch.diff> <check-id> [<check-id>...]   (env TIER=quick|thorough)
-# Applies a seeded change to /repo, runs the given checks, and ALWAYS reverts /repo afterwards.
-P=$1; shift
-cd /repo || exit 1
-if [ -n "$(git status --porcelain)" ]; then echo "/repo not clean"; exit 1; fi
-git apply $P || { echo "patch does not apply"; exit 1; }
-trap 'git -C /repo reset -q --hard HEAD ; git -C /repo clean -fdq; [ -n "$VERIF_EVIDENCE_DIR" ] && rm -rf "$VERIF_EVIDENCE_DIR"' EXIT
+# usage: seedtest.sh <patch.diff> <check-id> [<check-id>...]   (env TIER=quick|thorough, LINES_MAX)
+# Applies a seeded change to a SCRATCH worktree of /repo (never to /repo itself), runs the given checks against it
+# (REPO_ROOT override, evidence redirected to a scratch dir) and removes the worktree.
+VERIF_ROOT=${VERIF_ROOT:-$(cd "$(dirname "$0")/.." && pwd)}; export VERIF_ROOT
+P=$(readlink -f "$1"); shift
+WT=$(mktemp -d /tmp/seedtest-wt.XXXXXX)
+git -C /repo worktree add -q --detach $WT HEAD || exit 1
 export VERIF_EVIDENCE_DIR=$(mktemp -d /tmp/seedtest-ev.XXXXXX)
+trap 'git -C /repo worktree remove --force $WT 2>/dev/null; rm -rf "$VERIF_EVIDENCE_DIR" $WT' EXIT
+(cd $WT && (git apply "$P" || git apply -3 "$P")) || { echo "patch does not apply"; exit 1; }
+export REPO_ROOT=$WT
 for id in "$@"; do
   echo "=== $id on seeded tree"
-  VERIF_ROOT=/verif /verif/bin/check $id ${TIER:-quick} 2>&1 | grep -E "^VIOLATION|signature:|^C[0-9]+ |KNOWN|INCONCL|BUILD" | sort | uniq -c | sort -rn | head -${LINES_MAX:-8}
+  "$VERIF_ROOT/bin/check" $id ${TIER:-quick} 2>&1 | grep -E "^VIOLATION|signature:|^C[0-9]+ |KNOWN|INCONCL|BUILD" | sort | uniq -c | sort -rn | head -${LINES_MAX:-8}
 done
